@@ -29,7 +29,7 @@ type c11key struct {
 
 func (k c11key) Sum() uint64 { return k.sum }
 
-var c11keys = []c11key{{0, 0}, {1, 64}, {2, 1}} // k0 and k1 share shard 0
+var c11keys = []c11key{{0, 0}, {1, 64}, {2, 1}, {3, 0}} // k0 and k1 share shard 0; k3 has the very same Sum() as k0 (a full hash collision: the keys still differ)
 
 type c11op struct {
 	thread     int
@@ -72,7 +72,7 @@ func (s *c11sys) do(th int, name string) {
 		s.c.Store(c11keys[k], o.val, vs.Epoch.Add(o.exp))
 	}
 	switch name {
-	case "get0", "get1":
+	case "get0", "get1", "get3":
 		o.kind, o.key = "get", int(name[3]-'0')
 		v, e, ok := s.c.Get(c11keys[o.key])
 		if ok {
@@ -92,6 +92,8 @@ func (s *c11sys) do(th int, name string) {
 		store(1, c11Far)
 	case "store2":
 		store(2, c11Far)
+	case "store3":
+		store(3, c11Far)
 	case "flush":
 		s.ops = append(s.ops, o)
 		s.c.Flush()
@@ -116,11 +118,21 @@ func (s *c11sys) do(th int, name string) {
 	o.end = s.seq
 }
 
-var c11point = []string{"get0", "get1", "storeA0", "storeShort0", "storeFrac0", "storeExpired0", "store1", "store2", "advance2s", "advance300ms"}
+var c11point = []string{"get0", "get1", "get3", "storeA0", "storeShort0", "storeFrac0", "storeExpired0", "store1", "store2", "store3", "advance2s", "advance300ms"}
 var c11full = []string{"flush", "len", "range", "gc"}
 
 // c11Scenario: progs[t] lists, per operation slot of thread t, the menu the
 // explorer chooses from.
+// c11ScenarioX: like c11Scenario with a sequential prologue (run before the
+// workers start) and epilogue (after they joined), both by the main thread.
+func c11ScenarioX(name string, pre []string, progs [][][]string, post []string, d int) vr.Scenario {
+	sc := c11Scenario(name, progs, d, false)
+	c11pre[name], c11post[name] = pre, post
+	return sc
+}
+
+var c11pre, c11post = map[string][]string{}, map[string][]string{}
+
 func c11Scenario(name string, progs [][][]string, d int, prefill bool) vr.Scenario {
 	threads := len(progs)
 	var sys *c11sys
@@ -134,6 +146,9 @@ func c11Scenario(name string, progs [][][]string, d int, prefill bool) vr.Scenar
 			s.do(-1, "storeA0")
 			s.do(-1, "store1") // same shard, capacity 1: evicts
 		}
+		for _, op := range c11pre[name] {
+			s.do(-1, op)
+		}
 		var wg vs.WaitGroup
 		for t := 0; t < threads; t++ {
 			t := t
@@ -146,6 +161,9 @@ func c11Scenario(name string, progs [][][]string, d int, prefill bool) vr.Scenar
 			})
 		}
 		wg.Wait()
+		for _, op := range c11post[name] {
+			s.do(-1, op)
+		}
 		s.lenAtEnd = s.c.Len()
 		s.c.Close()
 	}
@@ -266,6 +284,8 @@ func TestVerifC11(t *testing.T) {
 		c11Scenario("point1full1-point1", []m{{P, F}, {P}}, 2, false),
 		c11Scenario("point1full1-point1-prefilled", []m{{P, F}, {P}}, 2, true),
 		c11Scenario("full1-full1-prefilled", []m{{F}, {F}}, 1, true),
+		// two lookups race on an entry that has expired, then the shard is refilled: capacity must still hold
+		c11ScenarioX("expired-get-get-then-refill", []string{"storeShort0", "advance2s"}, []m{{{"get0", "get3"}}, {{"get0", "gc", "flush"}}}, []string{"storeA0", "store1", "len", "store3", "range", "len"}, 3),
 	}
 	if e.Tier == "thorough" {
 		scs = []vr.Scenario{
@@ -276,6 +296,7 @@ func TestVerifC11(t *testing.T) {
 			c11Scenario("point1full1-point1full1", []m{{P, F}, {P, F}}, 1, false),
 			c11Scenario("full1-full1-prefilled", []m{{F}, {F}}, 2, true),
 			c11Scenario("any1-any1-point1", []m{{all}, {all}, {P}}, 1, true),
+			c11ScenarioX("expired-get-get-then-refill", []string{"storeShort0", "advance2s"}, []m{{{"get0", "get3"}}, {{"get0", "gc", "flush"}}, {{"get0", "storeA0"}}}, []string{"storeA0", "store1", "len", "store3", "range", "len"}, 3),
 		}
 	}
 	vr.RunScenarios("C11", scs)
